@@ -22,6 +22,18 @@ def run(tier, replay=None):
                          {"cap": cap, "ext": ext, "flags": "s", "seeds": (0x10,)},
                          deadline_s=700 if tier == "quick" else 3600)
     _cat.report_pipeline(rep, builts, total, "ext")
+    from ..enum import kinds
+    kcells = cxx.QUICK_CELLS if tier == "quick" else cxx.ALL_CELLS
+    ks = []
+    for bo in ("littleEndian", "bigEndian"):
+        s = kinds.kinds_schema(bo)
+        ks.append((s, [m.name for m in s.msgs]))
+    kb = pipeline.prepare("kinds-" + tier, ks, kcells)
+    kt = pipeline.run(kb, kcells, "vlib.checks._cat", "plan_dump", {"cap": 6, "ext": ext, "flags": "s", "seeds": (0x10,)})
+    _cat.report_pipeline(rep, kb, kt, "ext-kinds")
+    total.cases += kt.cases
+    total.ok += kt.ok
+    total.distinct |= kt.distinct
     rep.set("evaluations", total.cases)
     rep.set("decoded_ok", total.ok)
     rep.set("distinct_nontrivial", len(total.distinct))
